@@ -7,7 +7,7 @@ use crate::step::*;
 use crate::world::World;
 
 pub const EL_NAMES: &[&str] = &["a", "b", "c", "p:d", "q:e", "f"];
-pub const ATTR_NAMES: &[&str] = &["x", "y", "z", "p:w", "id", "xml:lang", "dflt", "fx"];
+pub const ATTR_NAMES: &[&str] = &["x", "y", "z", "p:w", "id", "xml:lang", "dflt", "fx", "q:w", "q:x"];
 pub const BAD_NAMES: &[&str] = &["1a", "a b", "a<", "", " ", "a&b", "a x='1'", "x>y", "-a", "a/"];
 pub const ODD_NAMES: &[&str] = &["a:b:c", "zz:a", ":a", "a:"];
 pub const PI_TARGETS: &[&str] = &["t", "u", "pi-x"];
@@ -214,7 +214,8 @@ impl<'a> DocGen<'a> {
         let mut used: Vec<&str> = vec![];
         for _ in 0..na {
             let an = self.rng.ps(ATTR_NAMES);
-            if used.contains(&an) {
+            // one attribute per local part: documents never start with two attributes that differ only in prefix
+            if used.iter().any(|u| local_of(u) == local_of(an)) {
                 continue;
             }
             used.push(an);
@@ -402,6 +403,10 @@ pub fn diff_query_pool(rng: &mut Rng) -> Vec<String> {
         "//processing-instruction('pi-x')".into(),
         "//processing-instruction()".into(),
         "//@*/ancestor::*".into(),
+        // namespace nodes: only counted (their relative order is implementation-defined)
+        "count(//namespace::*)".into(),
+        "count(/*/*/namespace::* | /*/*/@*)".into(),
+        "count(//*/namespace::*[1])".into(),
     ];
     let n = rng.range(6, 12);
     let mut out = vec![];
@@ -513,6 +518,8 @@ pub enum Proc {
     TextPair { el: S, a: String, b: String, node: Option<S>, stage: usize },
     /// edit the text node inside an attribute value through its CharacterData interface
     AttrTextEdit { el: S, attr: Option<S>, text: Option<S>, stage: usize },
+    /// declare a namespace through the attribute-node interface: create_attribute("xmlns:n"), set_value, set_attribute_node
+    NsDeclare { el: S, attr: Option<S>, n: usize, stage: usize },
 }
 
 #[derive(Clone, Debug)]
@@ -1079,7 +1086,8 @@ impl Gen {
     fn start_proc(&mut self, w: &World, task: usize) -> Option<Proc> {
         let elements = self.nodes(w, |n| n.kind == Kind::Element);
         let texts = self.nodes(w, |n| n.kind == Kind::Text && n.parent.is_some());
-        match self.rng.below(7) {
+        match self.rng.below(8) {
+            7 => Some(Proc::NsDeclare { el: self.pick_slot(task, &elements)?, attr: None, n: self.rng.range(1, 3), stage: 0 }),
             5 => {
                 let (a, b) = *self.rng.pick(&[("a]]", ">b"), ("a]", "]>b"), ("]", "]>"), ("]]", ">"), ("x]", "]"), ("-", "-"), ("a", "b")]);
                 Some(Proc::TextPair { el: self.pick_slot(task, &elements)?, a: a.to_string(), b: b.to_string(), node: None, stage: 0 })
@@ -1268,6 +1276,25 @@ impl Gen {
                     let data = self.rng.ps(&["'", "\"", "'\"", "\"'", "]]>", ">", "a"]).to_string();
                     let op = if self.rng.pct(60) { Op::AppendData { node: t, data } } else { Op::InsertData { node: t, off: 0, data } };
                     (Some(op), if stage == 3 { Some(Proc::AttrTextEdit { el, attr, text, stage: 4 }) } else { None })
+                }
+                _ => (None, None),
+            },
+            Proc::NsDeclare { el, attr, n, stage } => match stage {
+                0 => {
+                    let out = self.fresh(task);
+                    (Some(Op::CreateAttr { doc: w.model.nodes[w.model.node_slot(el)?].doc, name: format!("xmlns:n{}", n), out }), Some(Proc::NsDeclare { el, attr: Some(out), n, stage: 1 }))
+                }
+                1 => {
+                    let a = attr?;
+                    w.model.node_slot(a)?;
+                    (Some(Op::SetValue { node: a, value: format!("urn:n{}", n) }), Some(Proc::NsDeclare { el, attr, n, stage: 2 }))
+                }
+                2 => {
+                    let a = attr?;
+                    w.model.node_slot(a)?;
+                    w.model.node_slot(el)?;
+                    let out = self.fresh(task);
+                    (Some(Op::SetAttributeNode { el, attr: a, out }), None)
                 }
                 _ => (None, None),
             },
